@@ -79,6 +79,23 @@ Section C10.
     forall k, nth_error txs' k = Some t -> In k (s_matched st').
   Proof. exact (scan_complete _ _ _ contains insert txid_eqb id_item op_item laws txid_eqb_spec). Qed.
 
+  (* General form of completeness.  [Hot t k] may be ANY set of outputs with the property
+     "after a matching call of matchTxAndUpdate on t, against any filter above f0, the
+     outpoint (t, k) is contained"; RelH closes the f0-matching transactions under "spends a
+     hot outpoint of a member".  C10_scan_complete is the instance Hot = hot0 (output k hits
+     f0 and the flag allows its class).  Other instances cover outputs that only hit the
+     GROWN filter, e.g. an output pushing the serialisation of an outpoint the transaction
+     itself spends when the transaction can match in no other way (harness family alias-chain). *)
+  Theorem C10_scan_complete_hot : forall fl (Hot : tx item txid -> nat -> Prop) f0 (txs txs' : list (tx item txid)) st',
+    (forall f t k, le_f contains f0 f -> In t txs ->
+       fst (match_tx_update contains insert id_item op_item fl f t) = true -> Hot t k ->
+       contains (snd (match_tx_update contains insert id_item op_item fl f t)) (op_item (t_id t) (N.of_nat k)) = true) ->
+    Permutation txs txs' ->
+    scan contains insert txid_eqb id_item op_item fl f0 txs' = Some st' ->
+    forall t, RelH contains id_item op_item Hot f0 txs t ->
+    forall k, nth_error txs' k = Some t -> In k (s_matched st').
+  Proof. exact (scan_complete_hot _ _ _ contains insert txid_eqb id_item op_item laws txid_eqb_spec). Qed.
+
   (* the scan performs at most n + (number of inputs) filter matches (distinct txids) *)
   Theorem C10_scan_cost : forall fl f0 (txs : list (tx item txid)) st,
     NoDup (map t_id txs) ->
@@ -112,6 +129,7 @@ Print Assumptions C10_match_bounds.
 Print Assumptions C10_scan_terminates.
 Print Assumptions C10_scan_sound.
 Print Assumptions C10_scan_complete.
+Print Assumptions C10_scan_complete_hot.
 Print Assumptions C10_scan_cost.
 Print Assumptions C10_scan_exact_without_false_positives.
 Print Assumptions C10_match_unloaded.
@@ -125,6 +143,15 @@ Theorem C10_scan_cost_old_refuted :
     (s_calls st > length txs + total_inputs txs)%nat.
 Proof. exact scan_cost_old_refuted. Qed.
 Print Assumptions C10_scan_cost_old_refuted.
+
+(* ... and the distinct-ids hypothesis of C10_scan_cost cannot be dropped (current algorithm,
+   a block containing the same parent twice: 7 matches > 3 + 2) *)
+Theorem C10_scan_cost_needs_distinct_ids :
+  exists (txs : list (tx N N)) (f0 : list N) (st : sstate (list N)),
+    scan (set_contains N N.eqb) (set_insert N) N.eqb xid xop UpdAll f0 txs = Some st /\
+    (s_calls st > length txs + total_inputs txs)%nat.
+Proof. exact scan_cost_needs_distinct_ids. Qed.
+Print Assumptions C10_scan_cost_needs_distinct_ids.
 
 (* the hypotheses are satisfiable: an exact set and the bloom filter's bit-set semantics both
    satisfy the laws; the former also satisfies exact_insert *)
